@@ -100,7 +100,7 @@ TypeOK == \A gi \in Groups : /\ st[gi].step <= nCalls
                              /\ RangeS(st[gi].mK) \subseteq BlocksOf(Cfg[gi])
                              /\ Len(st[gi].lCnt) = NL(Cfg[gi])
 \* behaviour emission (simulate mode): print the history once the bound is reached
-EmitInv == (Emit /\ nCalls = MaxCalls) => PrintT(<<"BEH", ToJson(hist)>>)
+EmitInv == (Emit /\ (nCalls = MaxCalls \/ raised \in {"value", "len"})) => PrintT(<<"BEH", ToJson(hist)>>)
 \* vacuity guards (expected to be VIOLATED when checked on purpose: reachability witnesses)
 NeverTol == raised # "tol"
 NeverValue == raised # "value"
